@@ -93,6 +93,7 @@ type Frame struct {
 	closureSig *types.Signature
 	iterStarts map[int]*State
 	paramObjs  []types.Object
+	rangeIdx   map[int]types.Object
 }
 
 type Exec struct {
@@ -112,6 +113,7 @@ type Exec struct {
 	curClause        *Clause
 	nameCount        map[string]int
 	poolRefs         []*Term
+	frameC           *frameCtx
 	inObjInv         bool
 	objInvSeen       map[string]bool
 	bndMentions      map[*Term][]*Term
